@@ -60,6 +60,7 @@ pub fn par_run(a: &Args, tag: &str, n: u64, f: impl Fn(&Args, u64, &mut Acc) + S
                     if i >= hi {
                         break;
                     }
+                    crate::panicmon::set_context(format!("tag={} case={} (replay: --only {} --tag {})", tag, i, i, tag));
                     f(a, i, &mut acc);
                 }
                 total.lock().unwrap().merge(acc);
